@@ -28,9 +28,25 @@ def vlen(runs):
     return sum(len(t) for t, _ in runs)
 
 
+def _again(fn):
+    """warming bit 32: the very same call on the very same operand objects was made (and its result used up)
+    once before the call that is recorded"""
+    if enc.WARM & 32:
+        try:
+            r = fn()
+            if not isinstance(r, str):
+                try:
+                    list(r)
+                except TypeError:
+                    pass
+        except Exception:  # noqa
+            pass
+
+
 def enc_res(fn):
     """Run fn() on the real code; encode a FmtStr result or the exception."""
     from curtsies.formatstring import FmtStr
+    _again(fn)
     try:
         r = fn()
     except Exception as e:  # noqa - every exception class is an observation
@@ -48,6 +64,7 @@ def enc_res(fn):
 def enc_list_res(fn):
     """fn() returns a list of FmtStr -> {"k","t","vs":[runs...]}"""
     from curtsies.formatstring import FmtStr
+    _again(fn)
     try:
         r = list(fn())
     except Exception as e:  # noqa
@@ -71,7 +88,13 @@ def exec_op(inp):
         ev["res"] = enc_res(lambda: f[inp["i"]])
     elif op == "add":
         x, y = enc.build_value(inp["x"]), enc.build_value(inp["y"])
-        ev["res"] = enc_res(lambda: x + y)
+        if inp.get("aug"):
+            import operator       # alias = x; alias += y
+            ev["res"] = enc_res(lambda: operator.iadd(x, y))
+        else:
+            ev["res"] = enc_res(lambda: x + y)
+        ev["x2"] = enc.enc_value(x)["v"]
+        ev["y2"] = enc.enc_value(y)["v"]
     elif op == "mul":
         f = B(inp["f"])
         ev["res"] = enc_res(lambda: f * inp["n"])
